@@ -74,7 +74,7 @@ def correspondence(ck, binpath, n):
         ck.tie_broken("harness c19 corr failed", err[-2000:])
         return
     cases = []
-    for l in out.splitlines():
+    for l in jlines(out):
         if not l.strip():
             continue
         c = json.loads(l)
@@ -97,7 +97,7 @@ def correspondence(ck, binpath, n):
         # property oracle, and shrink; a failing verdict is a concrete violation
         if n_probed < 8:
             prc, pout, perr = ck.run_bin(binpath, ["probe", "--text-json", json.dumps(c["text"]), "--corpus", os.path.join(VERIF, "corpus", "C19")], timeout=600)
-            for pl in pout.splitlines():
+            for pl in jlines(pout):
                 if pl.strip():
                     v = json.loads(pl)
                     ck.violation(v["signature"], "%s in program %r (%s; the correspondence disagreed on %r)" % (
@@ -125,7 +125,7 @@ def search(ck, binpath, n):
     if rc != 0:
         ck.tie_broken("harness c19 search failed", err[-2000:])
         return
-    for l in out.splitlines():
+    for l in jlines(out):
         if not l.strip():
             continue
         v = json.loads(l)
@@ -143,7 +143,7 @@ def replay(ck, binpath, path):
         if t is None:
             continue
         rc, out, err = ck.run_bin(binpath, ["one", "--text-json", json.dumps(t)])
-        for l in out.splitlines()[1:]:
+        for l in jlines(out)[1:]:
             if l.strip():
                 report(ck, json.loads(l))
 
